@@ -40,7 +40,7 @@ func cmdRetention(args []string) error {
 		if rdmc > rd {
 			R.Bad(c, sig, "load-side retention %v exceeds the sweeper retention %v (retention_days=%v cutoff=%v): swept markers bounce", rdmc, rd, sw.RetentionDays, sw.RetentionLoadCutoffDuration)
 		}
-		if rd > 0 && 4*rdmc < rd-4 {
+		if rd > 0 && rdmc < rd/4-1 { // (not 4*rdmc: that overflows for retentions of centuries)
 			R.Bad(c, sig, "load-side retention %v below a quarter of %v", rdmc, rd)
 		}
 		if haveWant && (!closeTo(rd, wantRD) || !closeTo(rdmc, wantRDMC)) {
